@@ -25,7 +25,7 @@ def means_checks(m, g, full, family, u_arrs, cov):
     bad = []
     phi = pf.CellVariable(m, full.copy())
     nd = g.nd
-    positive = family in ('positive', 'poszeros', 'posconst')
+    positive = family in ('positive', 'poszeros', 'posconst', 'posscaled')
     with np.errstate(all='ignore'):
         res = {'linear': pf.linearMean(phi), 'arith': pf.arithmeticMean(phi)}
         if positive:
@@ -96,6 +96,9 @@ def run_case(case):
     extra = {}
     if fam == 'positive':
         full = np.exp(rng.normal(0, 2.0, sh))
+    elif fam == 'posscaled':
+        # physically small / large magnitudes (a diffusivity of 1e-9 m2/s): the means are homogeneous of degree one
+        full = np.exp(rng.normal(0, 1.0, sh)) * 10.0 ** float(rng.choice([-12, -9, -6, 6, 9]))
     elif fam == 'poszeros':
         full = np.exp(rng.normal(0, 1.0, sh))
         full[rng.random(sh) < 0.35] = 0.0
@@ -175,8 +178,10 @@ def run_embed(case):
     g = Geom(cls, faces)
     m = gen.build_mesh(pf, cls, faces)
     k = int(rng.integers(0, g.nd))
-    fam = str(rng.choice(['positive', 'poszeros']))
+    fam = str(rng.choice(['positive', 'poszeros', 'posscaled']))
     line = np.exp(rng.normal(0, 1, g.N[k] + 2))
+    if fam == 'posscaled':
+        line = line * 10.0 ** float(rng.choice([-12, -9, 6]))
     if fam == 'poszeros':
         line[rng.random(line.shape) < 0.4] = 0.0
     full = np.broadcast_to(_bc(line, k, g.nd), g.full_shape()).copy()
@@ -218,7 +223,7 @@ def run_case(case):  # noqa: F811  (dispatcher)
     return _run_means(case)
 
 
-FIELDS = ['positive', 'poszeros', 'posconst', 'arbitrary', 'smallint', 'linear']
+FIELDS = ['positive', 'poszeros', 'posconst', 'posscaled', 'arbitrary', 'smallint', 'linear']
 
 
 def plan(tier, seed):
